@@ -28,8 +28,8 @@ def plan(tier, seed):
     specs = []
     q = tier == "quick"
     ab = 8 if q else 20
-    for i in range(24 if q else 400):
-        specs.append({"kind": "mut", "seed": seed, "chunk": i, "abandon": ab, "heavy_cap": 260 if q else 1200})
+    for i in range(24 if q else 240):
+        specs.append({"kind": "mut", "seed": seed, "chunk": i, "abandon": ab, "heavy_cap": 260 if q else 600})
     for i in range(8 if q else 80):
         specs.append({"kind": "trunc", "seed": seed, "chunk": i, "abandon": ab})
     for i in range(12 if q else 120):
